@@ -349,6 +349,9 @@ func runC11(c *Checker) {
 	// recover: the mailboxes are re-created and the streams re-opened on every attempt (RETRY, as C05)
 	ruleRETRY(c)
 	ruleAcceptRetryable(c)
+	// ... and the per-direction mutexes of a connection being released: Refresh takes them, so a
+	// callback that returned holding one blocks the next Accept/Dial for ever (LOCKBAL, as C05)
+	ruleLOCKBAL(c, targetMbox)
 }
 
 // ruleAcceptRetryable: a failed attempt to set up the next connection must not end the listener.
